@@ -94,9 +94,9 @@ int main( int argc, char ** argv ) {
                 for( SDAI_Application_instance::iAMap_t::const_iterator it = m.begin(); it != m.end(); ++it ) {
                     const Inverse_attribute * ia = it->first;
                     bool declAggr = ia->IsAggrType() != 0;
-                    // which member of the union the loader filled is decided by the INVERTED attribute (lazyRefs.h); reading
-                    // the other member would be type confusion, so the driver follows the loader and reports both facts
-                    bool isAggr = ia->inverted_attr_() ? ( ia->inverted_attr_()->IsAggrType() != 0 ) : declAggr;
+                    // read the member of the value holder that the inverse attribute's own declaration names, as the generated accessor of a
+                    // client program does (a loader that fills the other member shows up as a sanitizer report or as garbage here)
+                    bool isAggr = declAggr;
                     fprintf( g_out, "V %s owner=%s kind=%s stored=%s ids=", ia->Name(), ia->Owner().Name(), declAggr ? "aggr" : "single", isAggr ? "aggr" : "single" );
                     if( isAggr ) {
                         EntityAggregate * ea = it->second.a;
